@@ -379,6 +379,11 @@ func (s *MemoryAllocationStore) UnmarshalJSON(data []byte) error {
 // PoolAllocator combines an IPAllocator with an AllocationStore
 // for integrated allocation and persistence.
 type PoolAllocator struct {
+	// mu makes "allocator step + store step" one atomic operation: without it two
+	// concurrent calls for one subscriber (Allocate racing Release) interleave their
+	// halves and leave allocator and store in disagreement
+	mu sync.Mutex
+
 	allocator *IPAllocator
 	store     AllocationStore
 	poolID    string
@@ -461,6 +466,9 @@ type AllocateOptions struct {
 
 // AllocateWithOptions allocates a prefix with additional options for DHCPv6.
 func (p *PoolAllocator) AllocateWithOptions(ctx context.Context, opts AllocateOptions) (*net.IPNet, error) {
+	p.mu.Lock()
+	defer p.mu.Unlock()
+
 	// A failed store write must only roll back an allocation made by this call
 	existed := p.allocator.Lookup(opts.SubscriberID) != nil
 
@@ -494,6 +502,9 @@ func (p *PoolAllocator) AllocateWithOptions(ctx context.Context, opts AllocateOp
 
 // Release releases a subscriber's allocation and removes from store.
 func (p *PoolAllocator) Release(ctx context.Context, subscriberID string) error {
+	p.mu.Lock()
+	defer p.mu.Unlock()
+
 	// An unknown subscriber is reported without touching the store
 	if p.allocator.Lookup(subscriberID) == nil {
 		return p.allocator.Release(subscriberID)
